@@ -88,7 +88,7 @@ def run(ctx):
     run_driver_checked(ctx, exe_a, [scr, ctx.path("mseq_asan.ndjson")], what="drv_mseq(asan)", replay_src=scr, timeout=3000)
     if not (os.path.exists(tr) and os.path.getsize(tr)):
         return
-    tl = [x for x in open(tr).read().split("\n") if x]
+    tl = [x for x in read_text(tr).split("\n") if x]
     ctx.sample({"recorded_event": json.loads(tl[len(tl) // 2])})
     # every event is judged on its own
     per = ctx.path("mseq_per_event.ndjson")
